@@ -226,7 +226,9 @@ def c09(ctx, t0):
         res.append(sc_checks.c09_stage(ctx))
     if want(ctx, 'concurrent-durability'):
         res.append(sc_checks.c09_concurrent_stage(ctx))
-    floors = {'concurrent_entry_obligations': (counters(res, 'concurrent_entry_obligations'), 10), 'concurrent_ops_overlapping': (counters(res, 'concurrent_ops_overlapping'), 10), 'scenarios': (counters(res, 'scenarios'), 8), 'post_ack_states': (counters(res, 'post_ack_states'), 8), 'ordering_obligations': (counters(res, 'ordering_obligations'), 8)}
+    if want(ctx, 'command-line'):
+        res.append(sc_checks.c09_cli_stage(ctx))
+    floors = {'cli_entry_obligations': (counters(res, 'cli_entry_obligations'), 2), 'concurrent_entry_obligations': (counters(res, 'concurrent_entry_obligations'), 10), 'concurrent_ops_overlapping': (counters(res, 'concurrent_ops_overlapping'), 10), 'scenarios': (counters(res, 'scenarios'), 8), 'post_ack_states': (counters(res, 'post_ack_states'), 8), 'ordering_obligations': (counters(res, 'ordering_obligations'), 8)}
     return finish(ctx, 'fault_enumeration', res, COMMON_ASSUME + [
         'persistence model as stated in the property (fsync(file) for data, fsync(dir) for entries)',
         'decided on the syscalls one traced execution of each operation made; other code paths of the same operation are covered by the scenario list only'], floors, t0)
